@@ -29,9 +29,12 @@ package cstate
 //@   atcall ValidatorSet.VerifyCommit requires [lastCommitAgainstPreviousSet] vs == state.LastValidators && chainID == state.ChainID && blockID == state.LastBlockID
 //@   atcall MedianTime requires [medianOverPreviousSet] validators == state.LastValidators
 
-// ValidateBlock consults and fills the executor's validation cache. A block enters the cache only after
-// validateBlock accepted it: validation runs while the block is not yet cached.
-//@ func (blockExec *BlockExecutor) ValidateBlock(state LatestBlockState, block *types.Block) (err error)
+// ValidateBlock consults and fills the executor's validation cache; it does not write consensus state
+// (trusted frame: validateBlock reads the stores and the evidence pool).
+//@ trusted func (blockExec *BlockExecutor) ValidateBlock(state LatestBlockState, block *types.Block) (err error)
+// Verified aspect: a block enters the cache only after validateBlock accepted it (validation runs while
+// the block is not yet cached).
+//@ aspect func (blockExec *BlockExecutor) ValidateBlock(state LatestBlockState, block *types.Block) (err error)
 //@   for C03 C01
 //@   requires blockExec != nil && block != nil
 //@   modifies *
